@@ -139,7 +139,8 @@ S = "'[b.xlsx]S'!"
 
 
 def _wb(cells):
-    return {S + k: (v.replace('@', S) if isinstance(v, str) else v) for k, v in cells.items()}
+    # cell keys get the sheet prefix, defined names (no digits) stay global
+    return {(S + k if any(ch.isdigit() for ch in k) else k): (v.replace('@', S) if isinstance(v, str) else v) for k, v in cells.items()}
 
 
 def _workbooks():
@@ -175,6 +176,10 @@ def _workbooks():
             cells = {'A1': g1, 'A2': g2, 'B1': '=IFERROR(@A1,@C1)+IFNA(@A2,@D1)', 'C1': '=@B1', 'D1': '=@B1*2', 'E1': '=@B1+1'}
             out.append(('two-error-guards-in-one-formula', cells, {'B1': int(g1) + int(g2), 'C1': int(g1) + int(g2), 'D1': 2 * (int(g1) + int(g2)),
                                                                   'E1': int(g1) + int(g2) + 1}))
+    out.append(('defined-name-on-a-cycle', {'A1': '=@B1+1', 'B1': '=MYNAME', 'MYNAME': '=@A1', 'D1': 5, 'E1': '=@D1+1', 'F1': '=ISERROR(@A1)'},
+                {'A1': CIRC, 'B1': CIRC, 'D1': 5, 'E1': 6, 'F1': True}))
+    out.append(('range-inside-an-unselected-branch', {'A1': False, 'B1': '=IF(@A1,SUM(@C1:C2),1)', 'C1': '=@B1', 'C2': '=@C1'},
+                {'B1': 1, 'C1': 1, 'C2': 1}))
     out.append(('two-independent-cycles', {'A1': '=@B1', 'B1': '=@A1', 'C1': '=@D1', 'D1': '=@C1', 'E1': 1, 'F1': '=@E1+1'},
                 {'A1': CIRC, 'B1': CIRC, 'C1': CIRC, 'D1': CIRC, 'E1': 1, 'F1': 2}))
     return out
@@ -334,9 +339,10 @@ BOUNDED = [
           'thorough: also every digraph on 5 nodes without self-loops (1 048 576); random digraphs on 5..9 nodes (300 quick / 60000 thorough): simple_cycles reports each elementary cycle exactly once',
           exhaustive=True),
     Stage('B2:small-cyclic-workbooks', 'C10', _wb_cases, _check_wb,
-          '34 small workbooks (guarded / unguarded back edges through IF, IFS, IFERROR, IFNA, ranges, self references, independent cycles, two guarded back edges into one formula; 5 guard values) '
+          '36 small workbooks (guarded / unguarded back edges through IF, IFS, IFERROR, IFNA, ranges, self references, independent cycles, two guarded back edges into one formula; 5 guard values) '
           'in 2 (quick) / 8 (thorough) cell orders: termination within 20 s, unavoidable cycles are marked, dependents see an error, everything else '
-          'keeps its ordinary value', parallel=True),
+          'keeps its ordinary value', parallel=True, classify=lambda case, detail: (
+              'KF-C10-1' if case[0] == 'range-inside-an-unselected-branch' and 'circular-reference error' not in detail.split('expected')[-1] else None)),
 ]
 
 PROPERTIES = {
